@@ -23,6 +23,7 @@ EXPLANATION = (
     "path. R-ATOMIC for register/deregister KeyError. R-SHARED: pools/registry/queue are fresh literals per "
     "SystemManager, Model builds its own manager; no class-level mutable state. Listing accessors are pure and return "
     "None exactly on the absent, lenient branch.")
+EXPLANATION += (" Also: Agent.get_component / __getitem__ return the entry exactly when the key is present (three-case lookup, no truthiness); add_agent / remove_agent (de)register on self.model.systems (the environment's own model); Agent.add_component / remove_component store / delete one entry under the absence / presence test.")
 ASSUMPTIONS = ["component classes use identity equality (quantifier)", "the position component managed by spatial worlds is excluded by the property",
                "model.environment is not replaced wholesale (outside the quantifier)"]
 
